@@ -17,12 +17,12 @@ def run(chk):
         # scen,  N, CAP, MAXSEND, RECV, OWN, units, framings
         ('reject', 3, 2, 1, 1, 3, [32, 64, 4096, 70000], ('cl',)),
         ('reject', 3, 1, 2, 1, 4, [40, 4096, 262144], ('cl',)),
-        ('http', 4, 2, 2, 1, 3, [32, 61, 4096, 70000], ('cl', 'close', 'chunked')),
+        ('http', 4, 2, 2, 1, 3, [32, 61, 4096, 70000], ('cl', 'close', 'chunked', 'seq')),
         ('tunnel', 3, 2, 1, 2, 3, [1, 7, 4096], ('cl',)),
     ]
     if not quick:
         plan += [('reject', 3, 3, 2, 1, 6, [64, 4096, 1 << 20], ('cl',)),
-                 ('http', 5, 3, 2, 2, 3, [40, 4096, 262144], ('cl', 'close', 'chunked', 'interim')),
+                 ('http', 5, 3, 2, 2, 3, [40, 4096, 262144], ('cl', 'close', 'chunked', 'interim', 'seq')),
                  ('tunnel', 4, 3, 2, 2, 3, [1, 13, 65536], ('cl',))]
     num = 120 if quick else 600
     drift_total = 0
